@@ -83,7 +83,7 @@ TLS struct mcount_thread_data mtd;
 int mcount_pfd = -1;
 
 /* maximum depth of mcount rstack */
-static int mcount_rstack_max = MCOUNT_RSTACK_MAX;
+int mcount_rstack_max = MCOUNT_RSTACK_MAX;
 
 /* name of main executable */
 char *mcount_exename;
@@ -707,6 +707,9 @@ static void mcount_rstack_estimate_finish(struct mcount_thread_data *mtdp)
 
 	pr_dbg2("generates EXIT records for task %d (idx = %d)\n", mcount_gettid(mtdp), mtdp->idx);
 
+	/* calls beyond the rstack max have no entry */
+	mtdp->idx = mcount_rstack_depth(mtdp);
+
 	while (mtdp->idx > 0) {
 		mtdp->idx--;
 		ret_time++;
@@ -823,7 +826,7 @@ static void segv_handler(int sig, siginfo_t *si, void *ctx)
 
 	mcount_rstack_restore(mtdp);
 
-	idx = mtdp->idx - 1;
+	idx = mcount_rstack_depth(mtdp) - 1;
 	/* flush current rstack on crash */
 	rstack = &mtdp->rstack[idx];
 	record_trace_data(mtdp, rstack, NULL);
@@ -1475,6 +1478,10 @@ void mcount_rstack_inject_return(struct mcount_thread_data *mtdp, unsigned long 
 {
 	uint64_t estimated_ret_time = 0;
 
+	/* calls beyond the rstack max have no entry to close */
+	if (mtdp->idx > mcount_rstack_max)
+		return;
+
 	if (mtdp->idx > 0) {
 		int idx = mtdp->idx - 1;
 
@@ -1874,6 +1881,13 @@ static void _xray_entry(unsigned long parent, unsigned long child, struct mcount
 	/* 'recover' trigger is only for -pg entry */
 	tr.flags &= ~TRIGGER_FL_RECOVER;
 
+	/* beyond the rstack max only idx counts, like in cygprof_entry() */
+	if (filtered == FILTER_RSTACK) {
+		mtdp->idx++;
+		mcount_unguard_recursion(mtdp);
+		return;
+	}
+
 	rstack = &mtdp->rstack[mtdp->idx++];
 
 	rstack->depth = mtdp->record_idx;
@@ -2009,7 +2023,7 @@ static void atfork_child_handler(void)
 	update_kernel_tid(tmsg.tid);
 
 	/* do not record parent's functions */
-	for (i = 0; i < mtdp->idx; i++)
+	for (i = 0; i < mcount_rstack_depth(mtdp); i++)
 		mtdp->rstack[i].flags |= MCOUNT_FL_WRITTEN;
 
 	mcount_unguard_recursion(mtdp);
